@@ -93,11 +93,12 @@ def check_arith(case):
     add_outputs = case['add_outputs']
     result_labels = None
     expect_outputs = None
+    again = case['uuid_seed'] % 3 == 0  # generators: ask twice, the first result changed by its owner in between
     with UuidStream(case['uuid_seed']):
         if form == 'generate':
             host = None
             if kind == 'sub':
-                c = ar.generate_sub_two_numbers(n, m, big_endian=be)
+                c = arith.fresh(lambda: ar.generate_sub_two_numbers(n, m, big_endian=be), again)
                 a, b = list(c.inputs[:n]), list(c.inputs[n:])
                 ret = list(c.outputs)
             elif kind == 'sub_cmp':
@@ -105,31 +106,31 @@ def check_arith(case):
                 a, b = list(c.inputs[:n]), list(c.inputs[n:])
                 ret = ar.add_subtract_with_compare(c, list(a), list(b), big_endian=be)
             elif kind == 'div_mod':
-                c = ar.generate_div_mod(n, big_endian=be)
+                c = arith.fresh(lambda: ar.generate_div_mod(n, big_endian=be), again)
                 a, b = list(c.inputs[:n]), list(c.inputs[n:])
                 ret = (list(c.outputs[:n]), list(c.outputs[n:]))
             elif kind == 'sqrt':
-                c = ar.generate_sqrt(n, big_endian=be)
+                c = arith.fresh(lambda: ar.generate_sqrt(n, big_endian=be), again)
                 a = list(c.inputs)
                 ret = list(c.outputs)
             elif kind == 'equal':
-                c = ar.generate_equal(n, case['num'])
+                c = arith.fresh(lambda: ar.generate_equal(n, case['num']), again)
                 a = list(c.inputs)
                 ret = c.outputs[0] if c.outputs else None
             elif kind == 'plus_one':
-                c = g.generate_plus_one(n, m, big_endian=be)
+                c = arith.fresh(lambda: g.generate_plus_one(n, m, big_endian=be), again)
                 a = list(c.inputs)
                 ret = list(c.outputs)
             elif kind == 'ite':
-                c = g.generate_if_then_else()
+                c = arith.fresh(lambda: g.generate_if_then_else(), again)
                 a = list(c.inputs)
                 ret = list(c.outputs)
             elif kind == 'pairwise_xor':
-                c = g.generate_pairwise_xor(n)
+                c = arith.fresh(lambda: g.generate_pairwise_xor(n), again)
                 a = list(c.inputs)
                 ret = list(c.outputs)
             else:
-                c = g.generate_pairwise_if_then_else(n)
+                c = arith.fresh(lambda: g.generate_pairwise_if_then_else(n), again)
                 a = list(c.inputs)
                 ret = list(c.outputs)
             res = refsem.from_circuit(c)
@@ -363,7 +364,7 @@ SPEC = {
              'labels added with it), host discipline (old gates structurally / functionally unchanged). Non-trivial: '
              'width >= 2 and, for add_* forms, >=1 internal operand gate.'),
     'assumptions': ['reference tables from vlib/refsem.py'],
-    'subs': [Sub('arith', cases, arith.with_label_collisions(check_arith), {'quick': 3200, 'thorough': 125000}),
+    'subs': [Sub('arith', cases, arith.with_refused_prelude(arith.with_label_collisions(check_arith)), {'quick': 3200, 'thorough': 125000}),
              # the option product kind x live list x add_outputs x endianness x given labels is small; give it its own budget
              Sub('alias', lambda tier: cases(tier, force_alias=True), check_arith, {'quick': 1600, 'thorough': 40000})],
     'required_classes': {'arith': KINDS + ['generate', 'add', 'be', 'le', 'internal_operands', 'unequal_widths',
